@@ -314,3 +314,6 @@ def run(ck, F):
     ck.run_rule(c03.r03_2)
     ck.run_rule(c03.r03_8)
     ck.run_rule(r05_4)
+    import c10
+    ck.run_rule(c10.r10_7)     # every announced port gets a Request (whose drop answers it): a half is never left without any outcome
+    ck.run_rule(c10.r10_6)
